@@ -800,8 +800,9 @@ theorem c07_shape_TreeMarshal_MakeTreeFromList :
 
 theorem c07_shape_treeStorage_GetRoster :
     Shapes.treestorage_treeStorage_GetRoster =
-   ["ts.Lock", "defer:ts.Unlock", "if:((tree!=nil)&&tree.Roster.ID.Equal(id))",
-     "return:tree.Roster", "return:nil"] := rfl
+   ["ts.Lock", "defer:ts.Unlock",
+     "if:(((tree!=nil)&&(tree.Roster!=nil))&&tree.Roster.ID.Equal(id))", "return:tree.Roster",
+     "return:nil"] := rfl
 
 theorem c07_shape_treeStorage_IsRequested :
     Shapes.treestorage_treeStorage_IsRequested =
